@@ -396,13 +396,22 @@ class QasmModule(ABC):  # pylint: disable=too-many-instance-attributes
         qasm_module = self if in_place else self.copy()
         qasm_module.validate()
 
-        idle_qubit_indices = qasm_module._get_idle_qubit_indices()
+        # whether a qubit is idle is judged on the whole program (every loop iteration and
+        # call), so the operation counters are taken from a full visit of a scratch copy
+        scratch_module = qasm_module.copy()
+        scratch_module._qubit_depths = {}
+        scratch_module._clbit_depths = {}
+        scratch_module.unroll()
+        idle_qubit_indices = scratch_module._get_idle_qubit_indices()
 
         id_gate_list = []
         for reg_name, idle_indices in idle_qubit_indices.items():
             for idx in idle_indices:
-                # increment the depth of the idle qubits by 1
-                qasm_module._qubit_depths[(reg_name, idx)].depth += 1
+                # the populated qubits are not idle any more
+                if (reg_name, idx) in qasm_module._qubit_depths:
+                    qubit_node = qasm_module._qubit_depths[(reg_name, idx)]
+                    qubit_node.depth += 1
+                    qubit_node.num_gates += 1
 
                 # add an identity gate to the qubits that are idle
                 id_gate = qasm3_ast.QuantumGate(
@@ -418,8 +427,16 @@ class QasmModule(ABC):  # pylint: disable=too-many-instance-attributes
                 )
                 id_gate_list.append(id_gate)
 
-        qasm_module.original_program.statements.extend(id_gate_list)
-        qasm_module._statements = qasm_module.original_program.statements
+        # the gates are appended to the current statements of the module (the unrolled ones if
+        # present), so that earlier transformations stay in effect
+        curr_stmts = (
+            qasm_module._statements
+            if len(qasm_module._unrolled_ast.statements) == 0
+            else qasm_module._unrolled_ast.statements
+        )
+        populated_stmts = curr_stmts + id_gate_list
+        qasm_module._statements = populated_stmts
+        qasm_module._unrolled_ast.statements = populated_stmts
 
         return qasm_module
 
